@@ -20,6 +20,13 @@
 //               (hgv_make_*: copies each field source that ticked into its field) of schema TSB{x,y} / TSB{x,y,z} /
 //               TSL<TS<Int>,2> (elements called x, y); tsbw2 = TSB{x,y} assembled at wiring time with to_tsb (a
 //               non-peered reference, one item per field).  One replay source per target field.
+//               tsf | tle | tsx | tsm | tssf   SIBLING CHILDREN as targets; the consumers read TS<Int> (tssf: TSS<Int>)
+//                 tsf   a..d = fields x,y,z,w of ONE node output TSB{x,y,z,w: TS<Int>}       (getitem_ by name)
+//                 tle   a..d = elements 0..3 of ONE node output TSL<TS<Int>,4>               (child path)
+//                 tssf  a..d = fields of ONE node output TSB{x,y,z,w: TSS<Int>}              (non-scalar siblings: control)
+//                 tsx   a..d = field x of FOUR DIFFERENT node outputs TSB{x,y}               (control)
+//                 tsm   a,b = fields x,y of one TSB{x,y} node output;  c,d = independent replay sources
+//               ticks as for ts / tss (`a=5`, `a=+1,-2`); the producer nodes copy what ticked into the child
 //        stage: direct | pass | inner | innerref;   selop: ite (default) | cmp | tree:<T>
 //        tree:<T>  CHAINED references: a selection tree whose inner nodes publish references that are the
 //                  branches of the node above.   T ::= a|b|c|d          a target (replay source)
@@ -77,6 +84,10 @@ namespace
     using SB2  = UnNamedTSB<Field<"x", TS<Int>>, Field<"y", TS<Int>>>;
     using SB3  = UnNamedTSB<Field<"x", TS<Int>>, Field<"y", TS<Int>>, Field<"z", TS<Int>>>;
     using SL2  = TSL<TS<Int>, 2>;
+    // one output whose children are the targets (sibling children)
+    using SF4  = UnNamedTSB<Field<"x", TS<Int>>, Field<"y", TS<Int>>, Field<"z", TS<Int>>, Field<"w", TS<Int>>>;
+    using SL4  = TSL<TS<Int>, 4>;
+    using SS4  = UnNamedTSB<Field<"x", TSS<Int>>, Field<"y", TSS<Int>>, Field<"z", TSS<Int>>, Field<"w", TSS<Int>>>;
 
     template <typename S> constexpr int NFIELDS = 0;
     template <> constexpr int NFIELDS<SB2>  = 2;
@@ -305,6 +316,61 @@ namespace
         }
     };
 
+    // ---- sibling children: ONE node, ONE output, four children that tick independently ---------
+    struct HgvMakeF4
+    {
+        static constexpr auto name = "hgv_make_f4";
+        static void eval(In<"x", TS<Int>, InputValidity::Unchecked> x, In<"y", TS<Int>, InputValidity::Unchecked> y,
+                         In<"z", TS<Int>, InputValidity::Unchecked> z, In<"w", TS<Int>, InputValidity::Unchecked> v, Out<SF4> out)
+        {
+            if (x.modified()) { out.field<"x">().set(x.value()); }
+            if (y.modified()) { out.field<"y">().set(y.value()); }
+            if (z.modified()) { out.field<"z">().set(z.value()); }
+            if (v.modified()) { out.field<"w">().set(v.value()); }
+        }
+    };
+    struct HgvMakeL4
+    {
+        static constexpr auto name = "hgv_make_l4";
+        static void eval(In<"x", TS<Int>, InputValidity::Unchecked> x, In<"y", TS<Int>, InputValidity::Unchecked> y,
+                         In<"z", TS<Int>, InputValidity::Unchecked> z, In<"w", TS<Int>, InputValidity::Unchecked> v, Out<SL4> out)
+        {
+            if (x.modified()) { out.set(0, x.value()); }
+            if (y.modified()) { out.set(1, y.value()); }
+            if (z.modified()) { out.set(2, z.value()); }
+            if (v.modified()) { out.set(3, v.value()); }
+        }
+    };
+    struct HgvMakeSS4
+    {
+        static constexpr auto name = "hgv_make_ss4";
+        template <typename I, typename O>
+        static void copy(const I &in, O &&out)
+        {
+            if (!in.modified()) { return; }
+            for (Int r : in.removed()) { out.remove(r); }
+            for (Int a : in.added()) { out.add(a); }
+        }
+        static void eval(In<"x", TSS<Int>, InputValidity::Unchecked> x, In<"y", TSS<Int>, InputValidity::Unchecked> y,
+                         In<"z", TSS<Int>, InputValidity::Unchecked> z, In<"w", TSS<Int>, InputValidity::Unchecked> v, Out<SS4> out)
+        {
+            copy(x, out.field<"x">());
+            copy(y, out.field<"y">());
+            copy(z, out.field<"z">());
+            copy(v, out.field<"w">());
+        }
+    };
+    const char *const FIELD4[4] = {"x", "y", "z", "w"};
+
+    // child `index` of a node output, addressed by path
+    template <typename C, typename P>
+    Port<C> child_port(Wiring &w, const P &parent, std::size_t index)
+    {
+        auto path = parent.path();
+        path.push_back(index);
+        return Port<C>{w, parent.node(), std::move(path)};
+    }
+
     // what ticked on a target itself (the structured counterpart of record(a))
     std::map<std::int64_t, std::map<int, std::string>> g_target;
     template <typename S>
@@ -446,6 +512,7 @@ namespace
         int         ncons{1};
         std::string stage{"direct"};
         bool        cmp{false};
+        std::string sib;              // tsf | tle | tsx | tsm | tssf: the targets are children of node outputs
         bool        wired{false};     // tsbw2: targets assembled at wiring time (to_tsb)
         bool        chained{false};   // cfg ... tree:<T>
         Tree        tree;             // always set: ite = i(a,b), cmp = m(a,b,c)
@@ -628,7 +695,48 @@ namespace
                 }
                 else { tg.push_back(wire<HgvMake<S>>(w, src[0], src[1])); }
             }
-            else { tg.push_back(wire<stdlib::replay_impl, S>(w, Str{TARGET_KEYS[t]})); }
+            else if (cfg.sib.empty()) { tg.push_back(wire<stdlib::replay_impl, S>(w, Str{TARGET_KEYS[t]})); }
+        }
+        if constexpr (std::is_same_v<S, STS> || std::is_same_v<S, STSS>)
+        {
+            if (!cfg.sib.empty())
+            {
+                std::vector<Port<S>> src;
+                for (int t = 0; t < MAX_TARGETS; ++t) { src.push_back(wire<stdlib::replay_impl, S>(w, Str{TARGET_KEYS[t]})); }
+                if constexpr (std::is_same_v<S, STSS>)
+                {
+                    auto one = wire<HgvMakeSS4>(w, src[0], src[1], src[2], src[3]);
+                    for (int t = 0; t < cfg.targets(); ++t) { tg.push_back(child_port<S>(w, one, static_cast<std::size_t>(t))); }
+                }
+                else if (cfg.sib == "tsf")
+                {
+                    auto one = wire<HgvMakeF4>(w, src[0], src[1], src[2], src[3]);
+                    for (int t = 0; t < cfg.targets(); ++t)
+                    {
+                        tg.push_back(wire<stdlib::getitem_>(w, one, Str{FIELD4[t]}).template as<S>());
+                    }
+                }
+                else if (cfg.sib == "tle")
+                {
+                    auto one = wire<HgvMakeL4>(w, src[0], src[1], src[2], src[3]);
+                    for (int t = 0; t < cfg.targets(); ++t) { tg.push_back(child_port<S>(w, one, static_cast<std::size_t>(t))); }
+                }
+                else if (cfg.sib == "tsx")
+                {
+                    for (int t = 0; t < cfg.targets(); ++t)
+                    {
+                        auto bundle = wire<HgvMake<SB2>>(w, src[t], src[t]);
+                        tg.push_back(wire<stdlib::getitem_>(w, bundle, Str{"x"}).template as<S>());
+                    }
+                }
+                else   // tsm
+                {
+                    auto pair = wire<HgvMake<SB2>>(w, src[0], src[1]);
+                    tg.push_back(wire<stdlib::getitem_>(w, pair, Str{"x"}).template as<S>());
+                    tg.push_back(child_port<S>(w, pair, 1));
+                    for (int t = 2; t < cfg.targets(); ++t) { tg.push_back(src[t]); }
+                }
+            }
         }
         auto wire_rest = [&](auto sel) {
             if (cfg.stage == "direct") { wire_consumers<S>(w, sel.template as<S>(), cfg.ncons); }
@@ -721,6 +829,11 @@ namespace
         if constexpr (!IS_STRUCT<S>)
         {
             for (int t = 0; t < cfg.targets(); ++t) { testing::set_replay_deltas(gb.global_state(), TARGET_KEYS[t], dt[t]); }
+            // sibling modes feed all four inputs of the producer: the unused ones never tick
+            for (int t = cfg.targets(); t < MAX_TARGETS && !cfg.sib.empty(); ++t)
+            {
+                testing::set_replay_deltas(gb.global_state(), TARGET_KEYS[t], std::vector<std::optional<Value>>(cycles.size()));
+            }
         }
 
         Obs obs;
@@ -839,7 +952,7 @@ int main()
                 Cfg  c;
                 const bool chained = w.size() == 5 && w[4].rfind("tree:", 0) == 0;
                 bool ok = (w.size() == 4 || w.size() == 5) && (w[1] == "ts" || w[1] == "tss" || w[1] == "tsd" || w[1] == "tsb2" || w[1] == "tsb3" || w[1] == "tsl2" ||
-                           w[1] == "tsbw2") &&
+                           w[1] == "tsbw2" || w[1] == "tsf" || w[1] == "tle" || w[1] == "tsx" || w[1] == "tsm" || w[1] == "tssf") &&
                           (w[2] == "1" || w[2] == "2" || w[2] == "3") &&
                           (w[3] == "direct" || w[3] == "pass" || w[3] == "inner" || w[3] == "innerref") &&
                           (w.size() == 4 || w[4] == "ite" || w[4] == "cmp" || chained);
@@ -852,6 +965,8 @@ int main()
                 if (ok)
                 {
                     c.shape = w[1];
+                    if (w[1] == "tsf" || w[1] == "tle" || w[1] == "tsx" || w[1] == "tsm") { c.sib = w[1]; c.shape = "ts"; }
+                    if (w[1] == "tssf") { c.sib = w[1]; c.shape = "tss"; }
                     c.wired = w[1] == "tsbw2";
                     c.ncons = static_cast<int>(to_i(w[2]));
                     c.stage = w[3];
